@@ -8,7 +8,7 @@ from props import c09
 
 rule("C08", "R09.3", "message ids are unique: one constructor, fresh counter, never-reused topic id, injective bit layout", floor=5)(c09.r09_3)
 
-ORDER_PRESERVING = {"into_iter", "iter", "map", "collect", "cloned", "copied", "by_ref", "enumerate", "zip", "inspect", "from_iter", "extend", "to_vec", "clone",
+ORDER_PRESERVING = {"into_iter", "iter", "map", "fold", "for_each", "try_fold", "try_for_each", "collect", "cloned", "copied", "by_ref", "enumerate", "zip", "inspect", "from_iter", "extend", "to_vec", "clone",
                     "into", "from", "deref", "deref_mut", "next", "into_future", "as_ref"}
 REORDERING = {"rev", "sort", "sort_by", "sort_by_key", "sort_unstable", "sort_unstable_by", "sort_unstable_by_key", "reverse", "swap", "rotate_left",
               "rotate_right", "shuffle", "par_iter", "into_par_iter", "skip", "step_by", "filter", "filter_map", "take", "dedup", "retain", "swap_remove", "pop"}
@@ -92,6 +92,9 @@ def r08_1(prog, out):
         o2 = ci.trace(setter[0][1].args[1])
         if o1.key() == o2.key():
             out.holds(key, ci.loc(pushes[0]), "the id returned to the publisher is the id stored in the message")
+        elif prog.receiver_origin(ci, ci.call_at(pushes[0]).args[1]).cells()[-1:] == (A.cell("TopicMessage", "id"),) and unit.on_every_pass(setter[0][0]) \
+                and ci.cfg.dominates(setter[0][0], pushes[0]):
+            out.holds(key, ci.loc(pushes[0]), "the id returned to the publisher is read back from the message after it was stamped")
         else:
             out.violation(key, ci.loc(pushes[0]), "the id returned to the publisher (%r) is not the id stored in the message (%r)" % (o1, o2))
     elif pushes:
@@ -111,12 +114,13 @@ def r08_1(prog, out):
         if unit.header is None:
             ro = ci.trace(0)
             handed = ro.kind == "call" and ro.data == arcs[0]
-        else:
+        if not handed:
+            # .. or pushed to the batch (a local Vec, or the Vec field of a batch builder), once per pass
             for bb, t in unit.calls(lambda c: c.path == "std::vec::Vec::<T, A>::push"):
                 o = ci.trace(t.args[1])
                 if o.kind == "call" and o.data == arcs[0] and unit.on_every_pass(bb):
                     handed = True
-    if handed and unit.on_every_pass(arcs[0]) if unit.header is not None else handed:
+    if handed and unit.on_every_pass(arcs[0]):
         out.holds(key, ci.loc(arcs[0]), "each message becomes exactly one shared message that is handed on")
     else:
         out.violation(key, prog.loc(ci.body.id), "the per-message step does not hand on exactly the one shared message it creates")
@@ -130,10 +134,11 @@ def r08_1(prog, out):
             for i, st in enumerate(blk.stmts):
                 if st.k == "assign" and st.rv.k == "agg" and st.rv.j.get("ak") == "closure" and prog.qual(pi.body, st.rv.j["def"]) == cid:
                     agg_bb = (blk.idx, i, st)
-        for bb, t in pi.calls(lambda c: c.path == "std::iter::Iterator::map"):
-            o = pi.trace(t.args[1])
+        for bb, t in pi.calls(lambda c: c.path in ("std::iter::Iterator::map", "std::iter::Iterator::fold", "std::iter::Iterator::for_each",
+                                                   "std::iter::Iterator::try_fold", "std::iter::Iterator::try_for_each")):
+            o = pi.trace(t.args[-1])
             if agg_bb and o.kind == "agg" and o.data == (agg_bb[0], agg_bb[1]):
-                src = (bb, t.args[0], "map(per-message step)")
+                src = (bb, t.args[0], "%s(per-message step)" % t.callee.path.split("::")[-1])
     else:
         for bb, t in unit.calls(lambda c: c.path == "std::iter::Iterator::next"):
             if t.args and (bb == unit.header or pi.cfg.dominates(bb, [x for x in pi.cfg.succ[unit.header] if x in unit.blocks][0]) or True):
